@@ -138,6 +138,11 @@ def r1_one_impl(rep, ctx):
                     return False
             return True
         v_ok = pair_elem(v0, 0) and pair_elem(v1, 1)
+        if not v_ok and gen_fn is afn:
+            # the whole operands handed over directly (what the generator yields once for numpy operands): only under IsNumpy()
+            acfg = CFG(afn.node)
+            under_numpy = any(v and isinstance(e, ast.Call) and isinstance(e.func, ast.Attribute) and e.func.attr == "IsNumpy" for e, v in acfg.facts_at(acfg.node_of(c)))
+            v_ok = under_numpy and any((ares.term(g.args[0]), ares.term(g.args[1])) == (v0, v1) for g in gens if len(g.args) >= 2)
         if not v_ok and v0[0] == "const" and v1[0] == "const":
             # the empty-operands arm: only the resulting quantity is used, the value is discarded
             par = getattr(c, "_parent", None)
@@ -300,12 +305,14 @@ def r4_container(rep, ctx):
     m = ctx.model
     fn = dispatch.do_operation(m, "Array")
     res = Resolver(m, fn)
-    conv = [st for st in own_statements(fn.node) if isinstance(st, ast.Assign) and isinstance(st.value, ast.Call) and isinstance(st.value.func, ast.Name) and st.value.func.id == "tuple"]
+    conv = [c_ for c_ in own_nodes(fn.node) if isinstance(c_, ast.Call) and isinstance(c_.func, ast.Name) and c_.func.id == "tuple" and len(c_.args) == 1]
     if not conv:
         raise AnalysisError("Array._DoOperation: conversion of the result list to a tuple not found")
+    cfg4 = CFG(fn.node)
     for st in conv:
-        p = getattr(st, "_parent", None)
-        guarded = isinstance(p, ast.If) and st in p.body and isinstance(p.test, ast.Call) and isinstance(p.test.func, ast.Attribute) and p.test.func.attr == "IsTuple"
+        # (judged by the facts that dominate the statement holding the conversion: `if g.IsTuple(): r = tuple(r)`,
+        # `return C(q, tuple(r))` in the arm of that test, a conditional expression desugared into such arms)
+        guarded = any(v and isinstance(e, ast.Call) and isinstance(e.func, ast.Attribute) and e.func.attr == "IsTuple" for e, v in cfg4.facts_at(cfg4.node_of(st)))
         rep.check(guarded, "C10.R4", "Array._DoOperation:tuple-iff-IsTuple", "the result list becomes a tuple exactly under IsTuple()", "the tuple conversion of the result is not guarded by IsTuple()", node=st, fn=fn)
     it = m.method("_ValueGenerator", "IsTuple")
     from .. import booleval
